@@ -33,9 +33,83 @@ type C20Case struct {
 	Pick     int `json:"pick,omitempty"`
 }
 
+// runC20BeyondClock: a layout whose coarsest retention is longer than the time since the epoch (1y:60y at any clock
+// before 2030). The time arithmetic of the other checks' models does not reach there (zone Z7), so only the part of
+// the property that needs no such arithmetic is judged: the run succeeds, the file has the requested header, and
+// with fill the slot that contains the generation instant holds a non-negative value in every archive.
+func runC20BeyondClock(c C20Case, ev *Evid) (fs []Finding) {
+	add := func(key, format string, args ...interface{}) {
+		fs = append(fs, Finding{Property: "C20", Key: key, Detail: fmt.Sprintf(format, args...)})
+	}
+	dir := scratchDir()
+	defer os.RemoveAll(dir)
+	path := filepath.Join(dir, "gen.wsp")
+	gc := &cmd.GenerateCommand{Dest: path, Perm: 0644, AggregationMethod: wt.AggregationMethod(c.L.Method), XFilesFactor: c.L.XFF, ArchiveInfoList: wtArchives(c.L), RandMax: c.Max, Fill: c.Fill, TextOut: ""}
+	var err error
+	pm := atClock(c.Now, func() { err = gc.Execute() })
+	desc := fmt.Sprintf("generate now=%d layout=%s max=%d fill=%v (the coarsest retention, %d s, is longer than the time since the epoch)", c.Now, c.L, c.Max, c.Fill, c.L.MaxRet())
+	if pm != "" {
+		add("generate-panic", "%s: panicked: %s", desc, pm)
+		return
+	}
+	if err != nil {
+		add("generate-error", "%s: %v", desc, err)
+		return
+	}
+	b, rerr := os.ReadFile(path)
+	if want := EncodeLayoutHeader(c.L); rerr != nil || len(b) < len(want) || !bytes.Equal(b[:len(want)], want) || int64(len(b)) != c.L.FileSize() {
+		add("header", "%s: reported success but the file (%d bytes, %v) does not have the requested layout", desc, len(b), rerr)
+		return
+	}
+	if c.Fill {
+		db, oerr := openWT(path, wt.WithoutFlock())
+		if oerr != nil {
+			add("reopen", "%s: %v", desc, oerr)
+			return
+		}
+		defer db.Close()
+		for a, ar := range c.L.Archives {
+			if ar.Ret() <= c.Now {
+				continue // archives the clock covers are the ordinary cases' business
+			}
+			raw, gerr := db.GetAllRawUnsortedPoints(a)
+			if gerr != nil {
+				add("reopen", "%s: raw dump of archive %d: %v", desc, a, gerr)
+				return
+			}
+			slot := alignDown(c.Now, ar.Step)
+			found := false
+			for _, p := range raw {
+				if int64(p.Time) == slot && float64(p.Value) >= 0 {
+					found = true
+				}
+			}
+			if !found {
+				add("fill-empty-retention-beyond-clock", "%s: success was reported, but archive %d holds no value in the slot of the generation instant (t=%d); non-empty physical slots: %d of %d", desc, a, slot, countWritten(raw), len(raw))
+				return
+			}
+		}
+	}
+	ev.Count(HashJSON(c), true, "retention-beyond-clock")
+	return nil
+}
+
+func countWritten(raw wt.Points) int {
+	n := 0
+	for _, p := range raw {
+		if p.Time != 0 {
+			n++
+		}
+	}
+	return n
+}
+
 func runC20(c C20Case, ev *Evid) (fs []Finding) {
 	add := func(key, format string, args ...interface{}) {
 		fs = append(fs, Finding{Property: "C20", Key: key, Detail: fmt.Sprintf(format, args...)})
+	}
+	if c.L.MaxRet() > c.Now {
+		return runC20BeyondClock(c, ev)
 	}
 	dir := scratchDir()
 	defer os.RemoveAll(dir)
@@ -297,6 +371,10 @@ func TestC20(t *testing.T) {
 			return []C20Case{
 				{Now: 1500000123, L: Layout{Archives: []Arch{{Step: 1, Points: 65537}}, Method: 1, XFF: 0.5}, Max: 100, Fill: true},
 				{Now: 1500000059, L: Layout{Archives: []Arch{{Step: 1, Points: 131073}, {Step: 60, Points: 2200}}, Method: 2, XFF: 0}, Max: 7, Fill: true, Skew: 1},
+				// retentions longer than the time since the epoch (known finding: nothing is written, success is reported)
+				{Now: 1500000000, L: Layout{Archives: []Arch{{Step: 31536000, Points: 60}}, Method: 1, XFF: 0.5}, Max: 100, Fill: true},
+				{Now: 1500000000, L: Layout{Archives: []Arch{{Step: 86400, Points: 365}, {Step: 31536000, Points: 60}}, Method: 2, XFF: 0.5}, Max: 100, Fill: true},
+				{Now: 1500000000, L: Layout{Archives: []Arch{{Step: 31536000, Points: 60}}, Method: 1, XFF: 0.5}, Max: 100, Fill: false},
 			}
 		},
 	})
